@@ -346,3 +346,5 @@ func ruleOf(id string) string {
 	}
 	return ""
 }
+
+func genExcludedRecursive() bool { return gen.Excluded("gotype.recursive_types") }
